@@ -26,6 +26,7 @@ def run(ck):
     for bad, info in crashes[:2]:
         ck.report(dict(input=cases[bad]["line"], error=info), oracle="refine_terminates", key="refine:crash",
                   what="a refinement history did not return within the time budget or died: " + info[:200])
+    lqueries = []; lmeta = []
     fails = []; queries = []; qmeta = []; npass = 0; nnontriv = 0; opcount = dict(split=0, merge=0, swap=0); nexc = 0
     for ci, (c, out) in enumerate(zip(cases, outs)):
         states = rc.parse_states(out)
@@ -33,10 +34,14 @@ def run(ck):
             continue
         for k in range(1, len(states)):
             pre, st = states[k - 1], states[k]
+            if st["name"] == "REFINE" and len(rc.live_faces(pre)) * max(1, len(st["ctl"])) <= 400000:
+                lq, ls = rc.loop_query(pre, st["ctl"], c["lmin"], c["lmax"], DYN)
+                if lq is not None:
+                    lqueries.append(lq); lmeta.append((ci, k, ls))
             if st["exc"]:
                 nexc += 1
                 break
-            if st["name"] not in ("REFINE", "OP0", "OP1", "OP2"):
+            if st["name"] not in ("REFINE", "OP0", "OP1", "OP2", "OPL0", "OPL1", "OPL2"):
                 continue
             npass += 1
             tr = st["trace"]
@@ -87,9 +92,27 @@ def run(ck):
                 broken.append((ci, k, d))
             elif name == "REFINE" and rep[0] != 1:
                 fails.append((ci, k, "split_only_long/merge_only_short (an operation of the pass fired although its length predicate or the link condition did not hold in the model state)"))
+    # ---- the control of the loop: which popped edge is operated on and how, the counter, the guard, the exception
+    nloop = 0; lstats = dict(pops=0, threw=0, left_with_work=0)
+    if lqueries:
+        mo = vlib.run([model, "loop"], input="\n".join(lqueries) + "\n", check=True, timeout=1800).stdout.strip().split("\n")
+        cache = {}
+        for (ci, k, ls), l in zip(lmeta, mo):
+            if ci not in cache:
+                cache = {ci: rc.parse_states(outs[ci])}
+            post = cache[ci][k]
+            ml = rc.parse_loop(l)
+            lstats["pops"] += len(ls[1]); lstats["threw"] += ml["kind"] == "THREW"; lstats["left_with_work"] += (ml["kind"] == "RETURNED" and ml["left"] > 0)
+            d = rc.compare_loop(post, ls, ml, DYN)
+            if d:
+                broken.append((ci, k, "refine_mesh loop: " + d))
+            else:
+                nloop += 1
+    ck.notes["loop_runs_reproduced_by_the_model"] = nloop
+    ck.notes["loop"] = lstats
     ck.cov["evaluations"] = npass
     ck.cov["distinct_nontrivial"] = nnontriv
-    ck.cov["traces_validated_against_impl"] = len(queries) - len(broken)
+    ck.cov["traces_validated_against_impl"] = len(queries) + len(lqueries) - len(broken)
     ck.notes["operations"] = opcount
     ck.notes["histories"] = len(cases)
     ck.notes["passes_reporting_failure_by_exception"] = nexc
